@@ -297,6 +297,14 @@ func runHostile(c *ctx) error {
 		if t.cfg.SHA256 {
 			hs, fs = 28, 72
 		}
+		// RefsFor queries with ids that occur in the table (and an absent one)
+		var rfq []string
+		for _, r := range t.refs {
+			if r.Value != nil && len(rfq) < 2 {
+				rfq = append(rfq, "rf:"+hx(r.Value))
+			}
+		}
+		rfq = append(rfq, "rf:"+strings.Repeat("ab", t.cfg.hashSize()))
 		var starts []uint64
 		if rd0, _ := openReader(data); rd0 != nil {
 			starts = reftable.VerifBlockStarts(rd0)
@@ -304,11 +312,27 @@ func runHostile(c *ctx) error {
 		for m := 0; m < nmut; m++ {
 			b := append([]byte{}, data...)
 			kind := ""
-			mk := c.rng.Intn(12)
+			mk := c.rng.Intn(13)
 			if mk == 11 {
 				mk = 10
 			}
+			mqs := qs
 			switch mk {
+			case 12:
+				kind = "obj-id-len"
+				// the 5-bit abbreviated-id length in the footer's object word takes every boundary value
+				// (the section offset stays); RefsFor is asked with a real, full-length id
+				f := len(b) - fs + hs + 8
+				w := binary.BigEndian.Uint64(b[f:])
+				if w>>5 == 0 {
+					// no object section: point the word at some block and see what RefsFor makes of it
+					w = uint64(c.rng.Intn(len(b))) << 5
+				}
+				vals := []uint64{0, 1, 2, 19, 20, 21, 27, 31}
+				w = w&^31 | vals[c.rng.Intn(len(vals))]
+				binary.BigEndian.PutUint64(b[f:], w)
+				fixCRC(b)
+				mqs = append(append([]string{}, qs...), rfq...)
 			case 0:
 				kind = "bitflip"
 				p := c.rng.Intn(len(b))
@@ -420,7 +444,7 @@ func runHostile(c *ctx) error {
 					}
 				}
 			}
-			do(kind, b, qs)
+			do(kind, b, mqs)
 		}
 	}
 	c.stats["max_bytes_allocated_by_one_case"] = maxAlloc
